@@ -26,7 +26,7 @@ ASSUMPTIONS = ["DONT_CARE: exp == now-leeway, bool/NaN time values, value and va
                "equal in Python but of different JSON type (1 == True == 1.0)"]
 BUDGET_S = {"quick": 80, "thorough": 900}
 FLOORS = {"quick": {"verdict:accept": 20000, "verdict:reject:missing": 3000, "verdict:reject:invalid": 10000, "verdict:reject:expired": 3000,
-                    "verdict:reject:not_yet_valid": 3000, "boundary": 10000, "aud:superstring": 300},
+                    "verdict:reject:not_yet_valid": 3000, "boundary": 10000, "aud:superstring": 300, "registry-reused": 10000},
           "thorough": {"verdict:accept": 200000}}
 EXHAUSTIVE = {"quick": False, "thorough": False}
 
@@ -86,7 +86,17 @@ def cases(draw):
         if n == "aud" and isinstance(claims.get("aud"), list) and claims["aud"] and "values" in options[n] and draw(st.booleans()):
             options[n]["values"] = options[n]["values"] + [draw(st.sampled_from(claims["aud"]))]
     implicit_now = draw(st.integers(0, 7)) == 0
-    return {"claims": claims, "options": options, "now": now, "leeway": leeway, "implicit_now": implicit_now, "tv": tv}
+    # further claims sets validated afterwards with the SAME registry object (a registry is naturally reused for many tokens)
+    more = []
+    for _ in range(draw(st.sampled_from([0, 0, 1, 2, 3]))):
+        c2 = dict(claims)
+        for n in draw(st.lists(st.sampled_from(NAMES), unique=True, max_size=4)):
+            if n in c2 and draw(st.booleans()):
+                del c2[n]
+            else:
+                c2[n] = draw(st.one_of(strv, st.none(), anyv)) if n not in ("exp", "nbf", "iat") else time_value(draw(st.sampled_from(OFFSETS)), now, leeway, False, 0.0)
+        more.append(c2)
+    return {"claims": claims, "options": options, "now": now, "leeway": leeway, "implicit_now": implicit_now, "tv": tv, "more": more}
 
 
 # ------------------------------------------------------------------ the oracle
@@ -192,13 +202,8 @@ def run_case(case) -> dict:
     from joserfc.errors import MissingClaimError, InvalidClaimError, ExpiredTokenError, InvalidTokenError, JoseError
     import joserfc.rfc7519.registry as regmod
     classes = {MissingClaimError: "missing", InvalidClaimError: "invalid", ExpiredTokenError: "expired", InvalidTokenError: "not_yet_valid"}
-    claims, options, now, leeway = case["claims"], case["options"], case["now"], case["leeway"]
-    try:
-        want = oracle(claims, options, now, leeway)
-    except DontCare as e:
-        return {"dont_care": str(e)}
-    before = copy.deepcopy(claims)
-    work = copy.deepcopy(claims)
+    options, now, leeway = case["options"], case["now"], case["leeway"]
+    sequence = [case["claims"]] + list(case.get("more", []))
     opts = copy.deepcopy(options)
     real_time = regmod.time
     try:
@@ -210,28 +215,43 @@ def run_case(case) -> dict:
     finally:
         regmod.time = real_time
     f = {}
-    try:
-        r = reg.validate(work)
-        raised = None
-    except tuple(classes) as e:
-        raised = classes[type(e)]
-    except Exception as e:
-        return {f"C10:unexpected-exception:{type(e).__name__}": f"validate raised {type(e).__name__}: {e} for claims {claims!r} options {options!r}"}
-    if work != before or not _deep_typed_eq(work, before):
-        f["C10:claims-modified"] = f"claims changed from {before!r} to {work!r}"
-    if not want:
-        if raised is not None:
-            f[f"C10:rejects-satisfying:{raised}"] = (f"claims {claims!r} satisfy request {options!r} at now={now} leeway={leeway} "
-                                                      f"but validate raised the {raised} error")
-        elif r is not None:
-            f["C10:validate-returns-value"] = repr(r)
-    else:
-        if raised is None:
-            f["C10:accepts-violating:" + "+".join(sorted(want))] = (f"claims {claims!r} violate request {options!r} at now={now} leeway={leeway} "
-                                                                      f"({sorted(want)}) but validate accepted them")
-        elif raised not in want:
-            f[f"C10:wrong-error-class:{raised}-for-" + "+".join(sorted(want))] = f"claims {claims!r} options {options!r}: raised {raised}, violated {sorted(want)}"
-    f["_verdict"] = "accept" if not want else "reject:" + "+".join(sorted(want))
+    first_verdict = None
+    for idx, claims in enumerate(sequence):
+        try:
+            want = oracle(claims, options, now, leeway)
+        except DontCare as e:
+            if idx == 0:
+                return {"dont_care": str(e)}
+            continue
+        before = copy.deepcopy(claims)
+        work = copy.deepcopy(claims)
+        suffix = "" if idx == 0 else ":reused-registry"
+        try:
+            r = reg.validate(work)
+            raised = None
+        except tuple(classes) as e:
+            raised = classes[type(e)]
+        except Exception as e:
+            return {f"C10:unexpected-exception:{type(e).__name__}": f"validate raised {type(e).__name__}: {e} for claims {claims!r} options {options!r}"}
+        if work != before or not _deep_typed_eq(work, before):
+            f["C10:claims-modified"] = f"claims changed from {before!r} to {work!r}"
+        hist = f" (validation #{idx + 1} with the same registry object; earlier claims sets: {sequence[:idx]!r})" if idx else ""
+        if not want:
+            if raised is not None:
+                f[f"C10:rejects-satisfying:{raised}{suffix}"] = (f"claims {claims!r} satisfy request {options!r} at now={now} leeway={leeway} "
+                                                                  f"but validate raised the {raised} error{hist}")
+            elif r is not None:
+                f["C10:validate-returns-value"] = repr(r)
+        else:
+            if raised is None:
+                f["C10:accepts-violating:" + "+".join(sorted(want)) + suffix] = (f"claims {claims!r} violate request {options!r} at now={now} leeway={leeway} "
+                                                                                  f"({sorted(want)}) but validate accepted them{hist}")
+            elif raised not in want:
+                f[f"C10:wrong-error-class:{raised}-for-" + "+".join(sorted(want))] = f"claims {claims!r} options {options!r}: raised {raised}, violated {sorted(want)}"
+        if idx == 0:
+            first_verdict = "accept" if not want else "reject:" + "+".join(sorted(want))
+    f["_verdict"] = first_verdict
+    f["_reused"] = len(sequence) - 1
     return f
 
 
@@ -244,6 +264,9 @@ def _account(ctx, case, f):
         ctx.dontcare(f["dont_care"])
         return
     verdict = f.pop("_verdict", "?")
+    reused = f.pop("_reused", 0)
+    if reused:
+        ctx.count("registry-reused", reused)
     claims, options = case["claims"], case["options"]
     exercised = [n for n in options if n in claims] + [n for n in case.get("tv", {})]
     boundary = [n for n, t in case.get("tv", {}).items() if t[0] not in ("past", "future")]
@@ -284,11 +307,12 @@ def run_shard(ctx, spec):
 
     def body(case):
         _account(ctx, case, run_case(case))
-    drive(ctx, "claims", cases(), body, 7000 if ctx.tier == "quick" else 90000)
+    drive(ctx, "claims", cases(), body, 4200 if ctx.tier == "quick" else 60000)
 
 
 def replay(rec) -> dict:
     f = run_case(rec)
     f.pop("_verdict", None)
+    f.pop("_reused", None)
     f.pop("dont_care", None)
     return f
